@@ -158,6 +158,7 @@ def run_case(rng, tier, idx):
         return 1e-6 * (np.abs(k0uu) @ (np.abs(cu) + 2 * np.abs(dc)))
     worst = 0.0
     dirs = []
+    dirs_S = []
     for k in range(4):
         dc = rng.normal(size=n) * sc_free
         D, S = stencil(fint, cu, dc)
@@ -170,6 +171,7 @@ def run_case(rng, tier, idx):
         e = float((np.abs(got - D) / den).max())
         worst = max(worst, e)
         dirs.append((dc, D, den))
+        dirs_S.append((dc, D, S))
     mech = None
     if worst > 1e-9:
         mech = classify(c, cc, model, fint, kT, cu, KT, k0uu, sc_free, n, plain=not prescribed and not imperfect)
@@ -183,7 +185,10 @@ def run_case(rng, tier, idx):
     KT_b = kT(cu)
     cc.ni_num_cores = threads
     f_b = fint(cu)
-    scf = np.abs(f_a) + np.abs(f_b); scf = scf + 1e-6 * scf.max() + 1e-300
+    # floor: the internal force of neighbouring states (a state whose force vanishes by symmetry returns quadrature round-off,
+    # which differs from one chunking of the grid to another at the 1e-16 level of the integrand)
+    near = max(float(S_.max()) for _, _, S_ in dirs_S) if dirs_S else 0.0
+    scf = np.abs(f_a) + np.abs(f_b); scf = scf + 1e-6 * max(scf.max(), near) + 1e-300
     c.judge('fint independent of the number of integration threads', float((np.abs(f_a - f_b) / scf).max()), 1e-9, data={'threads': [threads, other]})
     c.judge('kT independent of the number of integration threads', float((np.abs(KT_b - KT) / (scK + 1e-6 * np.abs(KT).max())).max()), 1e-9)
     # repeatability at fixed configuration (a data race shows up as run-to-run differences)
